@@ -345,9 +345,14 @@ func (o *rotatingFile) read(ctx context.Context, op fsnotify.Op) error {
 
 	currentSizeBytes := fInfo.Size()
 
-	if currentSizeBytes < o.lastSz {
-		// If true, then the file was likely rotated, so we need
-		// to start from the beginning of the file.
+	if currentSizeBytes < o.lastSz || currentSizeBytes < o.getOffset() {
+		// If true, then the file was likely rotated or truncated,
+		// so we need to start from the beginning of the file.
+		//
+		// The offset is checked as well because lastSz is only
+		// updated here: after the initial read of the file it is
+		// still zero while the offset is not, and a truncation
+		// at that point would otherwise go unnoticed.
 		o.setOffset(0)
 	}
 
